@@ -286,4 +286,67 @@ theorem matchedUnder_root (leaves : List α) (matched : List Bool) (hlen : match
   unfold matchedUnder
   rw [hlen, span_root _ _ (le_pow_treeHeight _ hn)]
 
+/-! ### the CVE-2012-2459 guard never fires on a built tree with distinct siblings -/
+
+theorem extractStrict_traverse [DecidableEq α] (leaves : List α) (matched : List Bool)
+    (hlen : matched.length = leaves.length) (hd : DistinctSiblings hh dflt leaves)
+    (h pos : Nat) (bits' : List Bool) (hs' : List α) :
+    extractNodeStrict hh leaves.length h pos
+      ((traverse hh dflt leaves matched h pos).1 ++ bits') ((traverse hh dflt leaves matched h pos).2 ++ hs')
+    = some (calcHash hh dflt leaves h pos, matchedUnder dflt leaves matched h pos, bits', hs') := by
+  induction h generalizing pos bits' hs' with
+  | zero =>
+    simp only [traverse, List.cons_append, List.nil_append, extractNodeStrict]
+    congr 2
+    simp only [calcHash]
+    unfold isParent matchedUnder
+    rw [span_zero]
+    by_cases hp : pos < matched.length
+    · simp only [if_pos hp, List.any_cons, List.any_nil, Bool.or_false, List.filter_cons, List.filter_nil]
+      cases hm : matched.getD pos false <;> simp
+    · simp [hp]
+  | succ h ih =>
+    by_cases hp : isParent matched (h + 1) pos = false
+    · rw [traverse, if_pos hp]
+      simp only [List.cons_append, List.nil_append, extractNodeStrict, if_true]
+      rw [matchedUnder_not_parent dflt leaves matched (h + 1) pos hp]
+    · rw [traverse, if_neg hp]
+      by_cases hw : pos * 2 + 1 < width leaves.length h
+      · simp only [if_pos hw, List.cons_append, extractNodeStrict, Bool.true_eq_false, if_false,
+          List.append_assoc]
+        simp only [ih]
+        rw [if_neg (hd h pos hw), matchedUnder_succ]
+        simp [calcHash, hw]
+      · simp only [if_neg hw, List.cons_append, extractNodeStrict, Bool.true_eq_false, if_false]
+        simp only [ih]
+        rw [matchedUnder_succ]
+        have he : matchedUnder dflt leaves matched h (pos * 2 + 1) = [] := by
+          unfold matchedUnder
+          rw [span_empty _ _ _ (by rw [hlen]; exact hw)]
+          rfl
+        rw [he, List.append_nil]
+        simp [calcHash, hw]
+
+theorem extractStrict_newMerkleBlock [DecidableEq α] (leaves : List α) (matched : List Bool)
+    (hne : leaves ≠ []) (hlen : matched.length = leaves.length) (hd : DistinctSiblings hh dflt leaves) :
+    extractStrict hh leaves.length (packFlags (newMerkleBlock hh dflt leaves matched).bits)
+        (newMerkleBlock hh dflt leaves matched).hashes
+      = some (calcHash hh dflt leaves (treeHeight leaves.length) 0,
+              matchedUnder dflt leaves matched (treeHeight leaves.length) 0) := by
+  have hn : 0 < leaves.length := List.length_pos_iff.mpr hne
+  unfold extractStrict newMerkleBlock
+  simp only []
+  generalize hH : treeHeight leaves.length = H
+  have hb := traverse_hashes_bound hh dflt leaves matched H 0 (by omega)
+  have hle := traverse_hashes_le_bits hh dflt leaves matched H 0
+  have hfl := packFlags_length (traverse hh dflt leaves matched H 0).1
+  obtain ⟨k, hk, hun⟩ := unpack_packFlags (traverse hh dflt leaves matched H 0).1
+  rw [if_neg (by omega), if_neg (by omega), if_neg (by omega), hun]
+  have := extractStrict_traverse hh dflt leaves matched hlen hd H 0 (List.replicate k false) []
+  rw [List.append_nil] at this
+  rw [this]
+  simp only [List.length_replicate, List.length_nil]
+  rw [if_neg (by omega)]
+  simp
+
 end BV.C20.Pmt
